@@ -287,6 +287,11 @@ func (t *Typed) UnmarshalYAML(unmarshal func(interface{}) error) error {
 type Intersection []Query
 
 func (i Intersection) Compile(index FeatureIndex, w World) search.Iterator {
+	if len(i) == 0 {
+		// Matches() is true for every feature when there's nothing to
+		// intersect with.
+		return All{}.Compile(index, w)
+	}
 	qs := make(search.Intersection, len(i))
 	for ii, q := range i {
 		qs[ii] = adaptQuery{Query: q, World: w}
